@@ -1,5 +1,6 @@
 """C04 - an operator never signs a slashable attestation or block, across restarts (spec/Slashing.tla)."""
 import concurrent.futures
+import hashlib
 import json
 import os
 import re
@@ -18,7 +19,7 @@ SPE = 2  # slots per epoch of the virtual beacon network, the same in every Slas
 
 def _tier(tier):
     if tier == "quick":
-        return dict(mc="Slashing_quick.cfg", mc_stop=150, cover="Slashing_cover.cfg", max_leaves=1500, extra_edges=700,
+        return dict(mc="Slashing_quick.cfg", mc_stop=900, cover="Slashing_cover.cfg", max_leaves=1500, extra_edges=700,
                     sim=("Slashing_sim.cfg", 150, 40), record_runs=150, conc_rounds=40, race=False,
                     apalache=False, per_invariant=False, inert_small=True)
     return dict(mc="Slashing_thorough.cfg", mc_stop=1500, cover="Slashing_cover_thorough.cfg", max_leaves=12000,
@@ -50,6 +51,14 @@ DEVIATIONS = [
     ("Slashing_fault_rempty.cfg", "stored record value is empty (code as written)"),
 ]
 CLAUSES = ["NoDoubleVote", "NoSurround", "NoDoubleBlock", "RefuseWhenUnknown"]
+
+
+_T = [0.0]
+
+
+def _phase(name):
+    now = time.time()
+    log("[C04] +%.0fs %s" % (now - _T[0], name))
 
 
 def _acts(trace):
@@ -94,10 +103,37 @@ def _attack_runs(T):
             kind = ("attack:deviation:" if cfg.startswith("Slashing_fault") else "attack:") + desc + " / " + inv
             jobs.append((name, kind, name + ".cfg", _only(src, [inv])))
 
+    spec_text = open(os.path.join(vlib.SPEC, MOD + ".tla")).read()
+    cdir = os.path.join(vlib.WORK, PROP, "cache")
+    os.makedirs(cdir, exist_ok=True)
+
     def one(job):
+        # An attack run is a pure function of (Slashing.tla, cfg text): its counterexample is cached under .work
+        # keyed by their hash. Only inputs for the replay come from here, never a count of the evidence.
         ident, kind, cfg, content = job
+        text = content if content else open(os.path.join(vlib.SPEC, cfg)).read()
+        key = hashlib.sha256((spec_text + "\0" + text).encode()).hexdigest()[:24]
+        cpath = os.path.join(cdir, key + ".json")
+        if os.path.exists(cpath) and not os.environ.get("VERIF_NOCACHE"):
+            try:
+                c = json.load(open(cpath))
+                ra = vlib.TLCResult()
+                ra.violation, ra.trace, ra.distinct, ra.generated, ra.finished = \
+                    c["violation"], c["trace"], c["distinct"], c["generated"], c["finished"]
+                ra.cached = True
+                return ident, kind, ra
+            except Exception:  # noqa: BLE001
+                pass
         files = {cfg: content} if content else None
-        return ident, kind, _tlc(MOD, cfg, name=ident, workers=2, timeout=1500, stop_after=1200, files=files)
+        ra = _tlc(MOD, cfg, name=ident, workers=2, timeout=1500, stop_after=1200, files=files)
+        ra.cached = False
+        if not ra.error and (ra.violation or ra.finished):
+            tmp = cpath + ".%d.tmp" % os.getpid()
+            with open(tmp, "w") as f:
+                json.dump({"violation": ra.violation, "trace": [{"act": vlib.tlaval.plain(st.get("act"))} for st in ra.trace],
+                           "distinct": ra.distinct, "generated": ra.generated, "finished": ra.finished}, f)
+            os.replace(tmp, cpath)
+        return ident, kind, ra
 
     with concurrent.futures.ThreadPoolExecutor(max_workers=6) as ex:
         return list(ex.map(one, jobs))
@@ -166,6 +202,7 @@ def _apalache(wd):
 
 def run(tier, seed):
     t0 = time.time()
+    _T[0] = t0
     T = _tier(tier)
     verdict = vlib.Verdict(PROP)
     cov = {"configs": [], "attack_traces": 0, "divergences": 0}
@@ -194,6 +231,7 @@ def run(tier, seed):
 
     # 2. state-graph cover of a small faithful config
     rg, nodes, edges, inits = fut_cover.result()
+    _phase("cover graph dumped")
     if not rg.finished and not rg.violation and not nodes:
         rg, nodes, edges, inits = vlib.tlc_dump_graph(MOD, T["cover"], timeout=1800, workers=4)   # killed from outside
     if not vlib.expect_tlc_ok(rg, T["cover"]):
@@ -206,6 +244,7 @@ def run(tier, seed):
     log("[C04] cover graph %s: %s" % (T["cover"], gstat))
     # 3. simulated behaviours of a larger faithful config
     rs, sb = fut_sim.result()
+    _phase("simulation done")
     if rs.violation or rs.error:
         raise vlib.MachineryError("simulation config: %s %s\n%s" % (rs.violation, rs.error, _acts(rs.trace)))
     for k, b in enumerate(sb):
@@ -216,11 +255,13 @@ def run(tier, seed):
     # 4. attack traces
     attack_behs = []
     cov["attacks"] = {}
-    for ident, kind, ra in fut_attacks.result():
+    attack_results = fut_attacks.result()
+    _phase("attack configs done")
+    for ident, kind, ra in attack_results:
         if ra.error:
             raise vlib.MachineryError("attack config %s: %s" % (ident, ra.error))
         cov["attacks"][ident] = {"counterexample": ra.violation or None, "steps": len(ra.trace),
-                                 "distinct": ra.distinct, "exhausted": ra.finished}
+                                 "distinct": ra.distinct, "exhausted": ra.finished, "from_cache": ra.cached}
         if not ra.violation:
             if not kind.startswith("inert") and "_No" not in ident and "_Refuse" not in ident:
                 log("[C04] attack config %s: no counterexample (%d distinct states, exhausted=%s)" %
@@ -249,6 +290,7 @@ def run(tier, seed):
         "%d attack steps refused" % (res["behaviours"], res["steps"], res["counters"].get("violations", 0),
                                      res["counters"].get("divergences", 0), cov["attack_steps_refused_by_real_code"]))
 
+    _phase("replay done")
     # 5. executions recorded from the real key manager, validated by TLC against the spec
     tr = os.path.join(wd, "trace.ndjson")
     outr = os.path.join(wd, "record_result.json")
@@ -267,7 +309,9 @@ def run(tier, seed):
         log("[C04] recorded trace REJECTED by the spec at line %d: %s" % (consumed + 1, bad))
         cov["divergences"] += 1
         cov["trace_rejected_at"] = {"line": consumed + 1, "event": bad}
+    _phase("trace validated")
     cov["binding_selftest"] = _selftest(tr, wd)
+    _phase("binding self-test done")
 
     # 6. concurrent signing requests for one share
     binc = vlib.go_build("slashing", race=True) if T["race"] else binq
@@ -283,6 +327,7 @@ def run(tier, seed):
                          "released_blocks": res3["counters"].get("released_blocks", 0), "race_detector": T["race"]}
     cov["divergences"] += res3["counters"].get("divergences", 0)
 
+    _phase("concurrent rounds done")
     # 7. unbounded inductive step (thorough)
     if fut_apalache is not None:
         cov["apalache"] = fut_apalache.result()
